@@ -225,7 +225,9 @@ def wellformed(ctx, prog):
                 continue
             items = [e[1:] for e in o.st.events if e[0] == 'ITEM']
             kn = o.st.extra.get('known') or {}
-            exact = [v for k, v in kn.items() if k.startswith('eq(') and 'size_hint' in k]
+            # the path has established lower bound == upper bound of the size hint (whichever way the code compares them)
+            exact = [1 for k, v in kn.items() if k.count('size_hint') >= 2 and ((k.lower().startswith('eq(') and v == 1) or (k.startswith('Ne(') and v == 0))] or \
+                    [v for k, v in kn.items() if k.startswith('eq(') and 'size_hint' in k]
             head = items[0] if items else None
             if head is None:
                 ctx.violation('S-ENC.iter', t + '|empty', 'nothing is written', where)
